@@ -1,5 +1,6 @@
 """C19: renders diagrams to the dot source (fname=*.raw: no external process), parses them back with
 pydot and hands nodes / edges / clusters / attributes to spec/TraceDiag.tla."""
+from decwire import excname
 import copy
 import os
 import re
@@ -92,7 +93,7 @@ def render_case(s, cid, heat, group, conf, tmpdir):
             else:
                 make_diag(s, fname=path, group=group, config=conf if conf else {})
     except Exception as e:
-        case["outcome"], case["exc"] = "exc", type(e).__name__ + ": " + str(e)[:80]
+        case["outcome"], case["exc"] = "exc", excname(e) + ": " + str(e)[:80]
     case["conf1"] = digest(repr(conf))
     # the loss every label must show: duration-weighted over the phases of the default solve()
     try:
